@@ -532,4 +532,43 @@ def postLiquidation (ps : List Pos) (lp : Pos) (pre : Int) : Res Int :=
     else if h ≤ pre then err E.WorseHealthPostLiquidation
     else .ok h
 
+/-! ### the end of a receivership bracket (`end_liquidation` / `end_deleverage`, instructions/marginfi_account/liquidate_end.rs) -/
+
+/-- what `start_liquidation` / `start_deleverage` stored in the liquidation record's cache -/
+structure PreCache where
+  aMaint : Int
+  lMaint : Int
+  aEq : Int
+  lEq : Int
+  deriving DecidableEq, Repr
+
+/-- `a - b` with the `-` operator of I80F48 (aborts on overflow under the on-chain profile) -/
+def subOp (a b : Int) : Res Int := if inRange (a - b) then .ok (a - b) else .error .panic
+
+/-- `end_receivership` → (seized, repaid): maintenance health must not be worse than at the start (and, unless
+    `ignoreHealthy`, must not be positive); seized / repaid are the falls of the equity-valued assets / liabilities -/
+def endReceivership (pre : PreCache) (ps : List Pos) (ignoreHealthy : Bool) : Res (Int × Int) := do
+  let preHealth ← subOp pre.aMaint pre.lMaint
+  let (postHealth, _, _) ← preLiquidation ps ignoreHealthy
+  let c ← components ps .equity
+  if preHealth > postHealth then err E.WorseHealthPostLiquidation
+  else do
+    let seized ← subOp pre.aEq c.assets
+    let repaid ← subOp pre.lEq c.liabs
+    .ok (seized, repaid)
+
+/-- the liquidator's allowed premium factor: 1 + max(fee-state maximum, the 5 % floor) -/
+def maxPremium (feeStateMax : Int) : Int := max (ONE + feeStateMax) (ONE + LIQUIDATION_BONUS_FEE_MINIMUM)
+
+/-- `end_liquidation`: the close-out exemption is keyed on the value of the ASSETS at the start (under five dollars);
+    otherwise seized <= repaid x (1 + premium). `repaid * max_fee` is the `*` operator (wraps on chain). -/
+def endLiquidation (pre : PreCache) (ps : List Pos) (feeStateMax : Int) : Res (Int × Int) := do
+  let ignoreHealthy := decide (pre.aEq < LIQUIDATION_CLOSEOUT_DOLLAR_THRESHOLD)
+  let (seized, repaid) ← endReceivership pre ps ignoreHealthy
+  if !ignoreHealthy && !decide (seized ≤ wrap ((repaid * maxPremium feeStateMax) / ONE)) then err E.LiquidationPremiumTooHigh
+  else .ok (seized, repaid)
+
+/-- `end_deleverage`: only "health not worse" -/
+def endDeleverage (pre : PreCache) (ps : List Pos) : Res (Int × Int) := endReceivership pre ps true
+
 end Mfi.Risk
